@@ -1,0 +1,108 @@
+//! Verification hook (only compiled with `--cfg manuel_woelker_rust_vfs_verif`).
+//!
+//! `yield_point` is called immediately before every lock acquisition of `MemoryFS`. It does
+//! nothing unless a schedule has been installed; with a schedule, registered threads hand a
+//! single "turn" to each other in exactly the recorded order, which replays one lock-level
+//! interleaving deterministically.
+
+use std::cell::Cell;
+use std::sync::{Condvar, Mutex};
+
+/// Pseudo thread id of the controlling (main) thread in a schedule
+pub const MAIN: usize = usize::MAX;
+
+struct State {
+    schedule: Vec<usize>,
+    pos: usize,
+    turn: usize,
+    free_run: bool,
+}
+
+static STATE: Mutex<Option<State>> = Mutex::new(None);
+static CV: Condvar = Condvar::new();
+
+thread_local! {
+    static TID: Cell<Option<usize>> = Cell::new(None);
+}
+
+/// Installs a schedule: the sequence of thread ids (or `MAIN`) that receive the turn at each
+/// switch point (initial pick, every yield point, every thread end).
+pub fn install(schedule: Vec<usize>) {
+    *STATE.lock().unwrap() = Some(State {
+        schedule,
+        pos: 0,
+        turn: MAIN,
+        free_run: false,
+    });
+}
+
+/// Removes the schedule; all hooks become no-ops again.
+pub fn uninstall() {
+    *STATE.lock().unwrap() = None;
+    CV.notify_all();
+}
+
+fn hand_over(me: usize, wait: bool) {
+    let mut guard = STATE.lock().unwrap();
+    {
+        let state = match guard.as_mut() {
+            Some(state) => state,
+            None => return,
+        };
+        if state.free_run {
+            return;
+        }
+        if state.pos >= state.schedule.len() {
+            // schedule exhausted: let everybody run to completion rather than hang
+            state.free_run = true;
+            CV.notify_all();
+            return;
+        }
+        state.turn = state.schedule[state.pos];
+        state.pos += 1;
+        CV.notify_all();
+    }
+    if !wait {
+        return;
+    }
+    loop {
+        match guard.as_ref() {
+            Some(state) if !state.free_run && state.turn != me => {}
+            _ => return,
+        }
+        guard = CV.wait(guard).unwrap();
+    }
+}
+
+/// Called by the controlling thread after spawning the workers: performs the initial pick and
+/// blocks until the turn comes back to `MAIN`.
+pub fn start() {
+    hand_over(MAIN, true);
+}
+
+/// Called first by every worker thread: registers its id and waits for its first turn.
+pub fn register(tid: usize) {
+    TID.with(|t| t.set(Some(tid)));
+    let mut guard = STATE.lock().unwrap();
+    loop {
+        match guard.as_ref() {
+            Some(state) if !state.free_run && state.turn != tid => {}
+            _ => return,
+        }
+        guard = CV.wait(guard).unwrap();
+    }
+}
+
+/// Called by a worker thread when its program is finished.
+pub fn finish() {
+    if let Some(me) = TID.with(|t| t.take()) {
+        hand_over(me, false);
+    }
+}
+
+/// Switch point before a lock acquisition. No-op for unregistered threads.
+pub fn yield_point(_label: &str) {
+    if let Some(me) = TID.with(|t| t.get()) {
+        hand_over(me, true);
+    }
+}
